@@ -264,8 +264,27 @@ func runC20b(e *env, tier string) {
 		p.FirstByteDelay = latency
 		return p
 	}
-	var reqAccum time.Duration
-	w.net.Sleep = func(d time.Duration) { reqAccum += d; mock.Add(d) }
+	// Request latency in stepped mode: the requesting goroutine blocks until the harness (the only
+	// goroutine that ever moves the mock clock) has advanced the clock by the latency.
+	type waiter struct {
+		at time.Time
+		ch chan struct{}
+	}
+	var pending []*waiter
+	w.net.Sleep = func(d time.Duration) {
+		wt := &waiter{at: mock.Now().Add(d), ch: make(chan struct{})}
+		pending = append(pending, wt)
+		<-wt.ch
+	}
+	drain := func() {
+		for len(pending) > 0 {
+			wt := pending[0]
+			pending = pending[1:]
+			mock.Set(wt.at)
+			close(wt.ch)
+			settle()
+		}
+	}
 	r.Sample["config"] = fmt.Sprintf("cadence: min=%v init=%v max=%v T=%v pattern=%d peers=%d latency=%v local=%d/1000 resume=%d", minI, initI, maxI, T, pattern, npeers, latency, localPm, resume)
 	r.Tracef("config %s", r.Sample["config"])
 	// pre-drawn production schedule: (time, total produced, local?)
@@ -363,16 +382,10 @@ func runC20b(e *env, tier string) {
 		}
 		nreq, localDuringPoll = 0, 0
 		nextBefore := polling.VerifNextInstance(w.sub)
-		reqAccum = 0
 		mock.Set(D) // fires the poll timer
 		settle()
-		// Mock.Set writes its target time once more after the woken goroutine has already run
-		// (and advanced the clock by its request latencies): put the clock where it belongs.
-		if reqAccum > 0 {
-			mock.Set(D.Add(reqAccum))
-			settle()
-		}
-		now2 := D.Add(reqAccum)
+		drain() // serve the latencies of the requests made by this iteration, one at a time
+		now2 := mock.Now()
 		D2, ok := nextMockTimer(mock)
 		if !ok {
 			e.fail("no_poll_scheduled", "cadence", "after the poll at +%v the subscriber has no poll timer pending", D.Sub(t0))
